@@ -1,4 +1,5 @@
 import McpModel.Wire.Ref
+import McpModel.Wire.Ann
 import McpModel.Wire.Retry
 import McpModel.Wire.Sse
 import McpModel.Wire.Result
@@ -920,6 +921,25 @@ def retryMonitor (rs : List (Bytes × JVal)) (state : Bytes) (o : RetryObs) : Op
   if !respIntact rs o then some .retryResponsesAltered
   else if !stateIntact state o then some .retryStateAltered
   else if !backAlike rs state o then some .retryNotDecodedAlike
+  else none
+
+/-! ## `ToolAnnotations` -/
+
+/-- `ann.rt`: what `json.Marshal` wrote for the annotations, and what `json.Unmarshal` made of it -/
+structure AnnObs where
+  written : Option JVal
+  back : Option ToolAnn
+deriving Repr, Inhabited
+
+def hintsPresent : Option JVal → Bool
+  | some (.obj kvs) =>
+    (match lookup ToolAnnotations_ReadOnlyHint_name kvs with | some (.bool _) => true | _ => false) &&
+    (match lookup ToolAnnotations_IdempotentHint_name kvs with | some (.bool _) => true | _ => false)
+  | _ => false
+
+def annMonitor (compat : Bool) (a : ToolAnn) (o : AnnObs) : Option Clause :=
+  if !compat && !hintsPresent o.written then some .toolAnnHintLost
+  else if o.back ≠ some a then some .toolAnnChanged
   else none
 
 /-! ## the `CompleteReference` codec -/
